@@ -58,6 +58,48 @@ def guard_index(site):
     return None
 
 
+def enumerate_index_of(t):
+    """t is `i` of `for (i, x) in V.iter().enumerate()` -> the collection term V (None otherwise); i < len(V) inside the loop"""
+    t = strip_casts(t)
+    if t[0] == 'field' and t[2] == '0' and t[1][0] == 'next':
+        it = q.unwrap_into_iter(t[1][1])
+        if it[0] == 'call' and it[1] == 'std::iter::Iterator::enumerate':
+            src = q.unwrap_into_iter(it[2][0])
+            while src[0] == 'call' and src[1].split('::')[-1] in ('iter', 'iter_mut', 'into_iter'):
+                src = q.unwrap_into_iter(src[2][0])
+            return src
+    return None
+
+
+def guard_index_enumerate(site):
+    """G2: v[j] where j runs over 0..i (ascending or .rev()) or is i itself, i being the enumerate() index of a loop over the same v"""
+    if site.kind != 'bounds':
+        return None
+    idx = strip_casts(site.detail['index_term'])
+    ln = site.detail['len_term']
+    bound = None
+    if idx[0] == 'next':
+        it = q.unwrap_into_iter(idx[1])
+        if it[0] == 'call' and it[1] == 'std::iter::Iterator::rev':
+            it = q.unwrap_into_iter(it[2][0])
+        if it[0] == 'agg' and it[1] == 'std::ops::Range':
+            f = dict(it[3])
+            lo = q.const_val(f['start'])
+            if isinstance(lo, int) and lo >= 0:
+                bound = f['end']
+    elif enumerate_index_of(idx) is not None:
+        bound = idx
+    if bound is None:
+        return None
+    v = enumerate_index_of(bound)
+    if v is None:
+        return None
+    lv = [x for x in walk(ln) if x == v]
+    if (ln[0] == 'len' and ln[1] == v) or (ln[0] == 'call' and ln[1] in LEN and ln[2][0] == v) or lv:
+        return 'G2: index runs below the enumerate() index of a loop over the same slice, which is < its length'
+    return None
+
+
 def guard_unwrap(site):
     """G3: Option::unwrap(x) dominated by a successful `x.as_ref().ok_or_else(..)?` / is_some test on the same place"""
     if site.kind != 'ext:unwrap':
@@ -163,3 +205,38 @@ def rejecting_guard(body, bb, pred):
         if others and all(q.arm_always_err(body, s) for s in others):
             return True
     return False
+
+
+def option_required(body, is_subject):
+    """sites where an Option-valued term satisfying is_subject(term) is required to be Some, the None case ending in Err:
+    `x.ok_or(..)?` / `x.ok_or_else(..)?`, `if x.is_none() { return Err }`, `match x { None => return Err, .. }`.
+    -> [block index of the requirement]"""
+    out = []
+    for c in q.calls(body):
+        if c.callee in ('std::option::Option::ok_or_else', 'std::option::Option::ok_or'):
+            a0 = q.arg_terms(c)[0]
+            if is_subject(a0):
+                fates = q.result_fates(body, c.dest['l'])
+                if fates and all(f[0] == 'try' for f in fates):
+                    out.append(c.bb)
+    for sw in q.switches_on(body, lambda d: True):
+        d = q.switch_cond(body, sw)
+        tm = body.blocks[sw]['term']
+        none_edges = None
+        if d[0] == 'call' and d[1] in ('std::option::Option::is_none', 'std::option::Option::is_some') and is_subject(d[2][0]):
+            if d[1].endswith('is_none'):
+                none_edges = [tm['otherwise']]
+            else:
+                none_edges = [s_ for v_, s_ in tm['targets'] if v_ == 0]
+        elif d[0] == 'un' and d[1] == 'Not' and d[2][0] == 'call' and d[2][1] in ('std::option::Option::is_none', 'std::option::Option::is_some') and is_subject(d[2][2][0]):
+            if d[2][1].endswith('is_some'):
+                none_edges = [tm['otherwise']]
+            else:
+                none_edges = [s_ for v_, s_ in tm['targets'] if v_ == 0]
+        elif d[0] == 'discr' and d[1][0] != 'try' and is_subject(d[1]) and tm.get('ty') == 'isize':
+            none_edges = [s_ for v_, s_ in tm['targets'] if v_ == 0]
+            if not none_edges and any(v_ == 1 for v_, s_ in tm['targets']):
+                none_edges = [tm['otherwise']]          # `if let Some(..)`: [1 -> some, otherwise -> none]
+        if none_edges and all(q.arm_always_err(body, e) for e in none_edges):
+            out.append(sw)
+    return out
